@@ -53,6 +53,9 @@ def variants(case, rng):
         for a, b in [(rng.choice([2, 4, 0.5, 1024]), rng.randint(-50, 50)), (3, rng.randint(-5, 5)),
                      (10, 0), (1, rng.choice([1000000, -7]))]:
             vs.append({"name": f"affine a={a} b={b}", "affine": [str(Fraction(a)), b], "perm": None, "index": None})
+        # exact maps into neighbouring doubles (values a few ulps apart: labels need 16-17 significant digits)
+        a, b = rng.choice([(Fraction(1, 2 ** 52), 1), (Fraction(256), 2 ** 60), (Fraction(1, 2 ** 46), 123)])
+        vs.append({"name": f"affine a={a} b={b} (ulps)", "affine": [str(a), b], "perm": None, "index": None})
     else:
         j = rng.randrange(len(RENAMES))
         vs.append({"name": f"rename#{j}", "rename": j, "perm": None, "index": None})
